@@ -97,6 +97,8 @@ def units(tier):
         for sel in itertools.permutations(keys, n):
             for ext in (None, 'first', 'last'):
                 out.append({'kind': 'embed', 'selection': list(sel), 'ext': ext})
+    for sel in itertools.permutations(keys, 2):
+        out.append({'kind': 'embed', 'selection': list(sel), 'ext': None, 'interleaved': True})
     # the two treasury + central bank economies together (with at most one of the others), in every order
     for third in [None] + [k for k in keys if k != 'pc']:
         members = ['pc', 'pc2'] + ([third] if third else [])
@@ -254,14 +256,33 @@ def prefixed(v, cc, sector_codes):
     return cc + '_' + full + '__' + local
 
 
-def check_embed(selection, ext):
+def check_embed(selection, ext, interleaved=False):
     pool = embedding_pool()
     case = {'kind': 'embed', 'selection': selection, 'ext': ext}
+    if interleaved:
+        case['interleaved'] = True
     countries = []
     for key in selection:
         countries.extend(json.loads(json.dumps(pool[key])))
     joint_spec = {'countries': countries, 'ext': ext, 'links': [], 'xr': {}, 'horizon': 3}
-    r = topo.run(joint_spec, maxtime=0)
+    if interleaved:
+        # the natural comparison loop: a stand-alone twin Model() is started while the joint model is still being declared
+        from sfc_models.models import Model as _Model
+        orig = topo._declare
+        state = {'n': 0}
+
+        def hooked(*a, **kw):
+            state['n'] += 1
+            if state['n'] in (3, 9):
+                _Model()
+            return orig(*a, **kw)
+        topo._declare = hooked
+        try:
+            r = topo.run(joint_spec, maxtime=0)
+        finally:
+            topo._declare = orig
+    else:
+        r = topo.run(joint_spec, maxtime=0)
     if r.stage == 'build' or r.error is not None:
         return 'joint-fails', [core.violation('embedding-breaks-build', 'joint model %s (ext=%s) fails: %s: %s' % (
             selection, ext, type(r.error).__name__, str(r.error)[:200]), case)]
@@ -426,8 +447,8 @@ def run_unit(unit, tier):
                     res['violations'].append(v)
         res['samples'] = [{'economy': unit['economy'], 'map': unit['maps'][-1]}]
     elif unit['kind'] == 'embed':
-        dig.add(('embed', tuple(unit['selection']), unit['ext']))
-        outcome, viols = check_embed(unit['selection'], unit['ext'])
+        dig.add(('embed', tuple(unit['selection']), unit['ext'], unit.get('interleaved', False)))
+        outcome, viols = check_embed(unit['selection'], unit['ext'], unit.get('interleaved', False))
         res['evaluations'] += 1
         res['states'] += 4 * (1 + len(unit['selection']))
         res['transitions'] += 3 * (1 + len(unit['selection']))
@@ -462,5 +483,5 @@ def replay(case):
         o, v = check_rename(case['country'], case['map'], case['multi'])
         return [v] if v else []
     if case['kind'] == 'embed':
-        return check_embed(case['selection'], case['ext'])[1][:1]
+        return check_embed(case['selection'], case['ext'], case.get('interleaved', False))[1][:1]
     return check_builder(case['builder'], case['book'], case['pos'])[1][:1]
